@@ -69,15 +69,19 @@ class TranspilingEstimatorV2(BaseEstimatorV2):
     ) -> BasePrimitiveJob[PrimitiveResult[PubResult], Any]:
 
         def apply_pass_manager(pub: EstimatorPubLike) -> EstimatorPubLike:
-            if isinstance(pub, EstimatorPub):
-                return EstimatorPub(
-                    circuit=self._pass_manager.run(pub.circuit),
-                    observables=pub.observables,
-                    parameter_values=pub.parameter_values,
-                    precision=pub.precision,
-                    validate=False,
-                )
-            return self._pass_manager.run(circuits=pub[0]), *pub[1:]
+            # The observables must be mapped to the qubit layout of the transpiled circuit
+            coerced_pub: EstimatorPub = EstimatorPub.coerce(pub, precision)
+            transpiled_circuit = self._pass_manager.run(coerced_pub.circuit)
+            observables = coerced_pub.observables
+            if transpiled_circuit.layout is not None:
+                observables = observables.apply_layout(transpiled_circuit.layout)
+            return EstimatorPub(
+                circuit=transpiled_circuit,
+                observables=observables,
+                parameter_values=coerced_pub.parameter_values,
+                precision=coerced_pub.precision,
+                validate=False,
+            )
 
         pubs = (apply_pass_manager(pub) for pub in pubs)
         return self._estimator.run(pubs, precision=precision)
